@@ -421,7 +421,7 @@ PROPS["C09"] = dict(
                "set_align_text, add_word / lookup_word, start / process_int16 / process_float32 (chunked, no_search, full_utt) / end, hyp, prob, seg_iter "
                "(walked, continued later, abandoned), lattice (node and link iterators, bestpath, posterior, hyp, seg_iter, retain), nbest (stepped, "
                "hyp, seg, abandoned), alignment (all three levels, children, retained, iterators kept/abandoned), result_json 0/1/2, times, get/set_cmn, "
-               "standalone fsg_model / jsgf / endpointer / config objects, and fine-grained polling utterances (word-loop grammar with short words, every query "
+               "identity MLLR transforms (apply, re-apply with NULL: results must not change), standalone fsg_model / jsgf (also with tags) / endpointer / config objects, and fine-grained polling utterances (word-loop grammar with short words, every query "
                "after each 5-20 ms of the bundled recording, so that partial results flip between words and nothing). 30% of the histories inject audio before start and after end, start twice, "
                "end without start, queries without any grammar, and empty-string / NULL arguments; the model (no grammar / idle / started / ended) "
                "predicts <0, <=0 or NULL for each. After 70% of the histories a conforming utterance on the bundled recording must give the usual "
@@ -437,6 +437,6 @@ PROPS["C09"] = dict(
                                                               "out_of_order_end_without_start": 15, "degenerate_argument_calls": 30, "iterators_abandoned_half_way": 200,
                                                               "lattices_returned": 100, "alignments_returned": 100, "nbest_iterators_returned": 50, "usability_probes": 300,
                                                               "decoders_freed_mid_utterance": 10, "words_added": 50, "standalone_objects_exercised": 100,
-                                                              "polling_utterances": 50, "partial_hypothesis_word_to_nothing_flips": 20}),
+                                                              "polling_utterances": 50, "partial_hypothesis_word_to_nothing_flips": 20, "mllr_transforms_applied": 20, "tagged_grammars": 50}),
     assumptions=[A_SAN, A_GEN, "LeakSanitizer's recoverable leak check finds unreachable blocks only; pointers left in dead stack slots can hide a leak"],
 )
